@@ -13,7 +13,10 @@ EXTENDS Integers, Sequences, FiniteSets, TLC, Rat
 
 Range(f) == {f[x] : x \in DOMAIN f}
 Identity(n) == [i \in 1..n |-> i]
-Bijections(n) == {s \in [1..n -> 1..n] : \A i, j \in 1..n : s[i] = s[j] => i = j}
+AllBijections(n) == {s \in [1..n -> 1..n] : \A i, j \in 1..n : s[i] = s[j] => i = j}
+BijTable == <<{s : s \in AllBijections(1)}, {s : s \in AllBijections(2)},   \* constant: explicit sets, built once by TLC
+              {s : s \in AllBijections(3)}, {s : s \in AllBijections(4)}>>
+Bijections(n) == IF n \in 1..4 THEN BijTable[n] ELSE AllBijections(n)
 RECURSIVE SumF(_, _)
 SumF(f, k) == IF k = 0 THEN Zero ELSE Add(SumF(f, k - 1), f[k])          \* f[1] + ... + f[k]
 RMaxSet(S) == CHOOSE x \in S : \A y \in S : Leq(y, x)                     \* S non-empty set of rationals
@@ -23,7 +26,7 @@ OkOf(g) == IF g = Zero THEN "false" ELSE IF g = One THEN "true" ELSE "partial"
 \* m: square matrix of rationals (rows = inputs, columns = answers); s: assignment input -> answer
 AssignTotal(m, s) == SumF([i \in 1..Len(m) |-> m[i][s[i]]], Len(m))
 BestTotal(m) == RMaxSet({AssignTotal(m, s) : s \in Bijections(Len(m))})   \* oracle: exhaustive search over n! assignments
-OptAssignments(m) == {s \in Bijections(Len(m)) : AssignTotal(m, s) = BestTotal(m)}
+OptAssignments(m) == LET best == BestTotal(m) IN {s \in Bijections(Len(m)) : AssignTotal(m, s) = best}
 
 \* the same optimum by expansion along the rows (independent formulation, used only in laws)
 RECURSIVE BestRec(_, _, _)
@@ -40,13 +43,15 @@ VectorTotal(r) == SumF([i \in 1..Len(r) |-> r[i].g], Len(r))
 
 Candidates(M, a, ordered) == IF ordered THEN {Identity(Len(M[a]))} ELSE OptAssignments(M[a])
 ListTotal(M, a, ordered) == IF ordered THEN AssignTotal(M[a], Identity(Len(M[a]))) ELSE BestTotal(M[a])
-BestLists(M, ordered) == {a \in 1..Len(M) : \A b \in 1..Len(M) : Leq(ListTotal(M, b, ordered), ListTotal(M, a, ordered))}
+BestLists(M, ordered) == LET tot == TLCEval([a \in 1..Len(M) |-> ListTotal(M, a, ordered)])
+                         IN {a \in 1..Len(M) : \A b \in 1..Len(M) : Leq(tot[b], tot[a])}
 \* cfg: [ordered, pc]
 Allowed(M, cfg) == UNION {{Finish(RawVector(M, a, s), cfg.pc) : s \in Candidates(M, a, cfg.ordered)} : a \in BestLists(M, cfg.ordered)}
 
 \* symmetries
-PermuteInputs(M, pi) == [a \in 1..Len(M) |-> [i \in 1..Len(M[a]) |-> M[a][pi[i]]]]                          \* box i now holds old input pi[i]
-PermuteAnswers(M, pi) == [a \in 1..Len(M) |-> [i \in 1..Len(M[a]) |-> [j \in 1..Len(M[a]) |-> M[a][i][pi[j]]]]] \* answer j is old answer pi[j]
+PermuteInputs(M, pi) == TLCEval([a \in 1..Len(M) |-> TLCEval([i \in 1..Len(M[a]) |-> M[a][pi[i]]])])        \* box i now holds old input pi[i]
+PermuteAnswers(M, pi) == TLCEval([a \in 1..Len(M) |-> TLCEval([i \in 1..Len(M[a]) |->
+                            TLCEval([j \in 1..Len(M[a]) |-> M[a][i][pi[j]]])])])                                \* answer j is old answer pi[j]
 InverseOf(pi) == [j \in 1..Len(pi) |-> CHOOSE i \in 1..Len(pi) : pi[i] = j]
 MoveVector(r, pi) == [i \in 1..Len(r) |-> r[pi[i]]]
 RelabelVector(r, pi) == [i \in 1..Len(r) |-> [r[i] EXCEPT !.j = InverseOf(pi)[r[i].j]]]
@@ -87,12 +92,12 @@ NPos(t) == IF IsLeaf(t) THEN 1 ELSE SumLens(t.gm)
 
 RECURSIVE Value(_)
 Weight(t, a, k, h) == Mul(Value(t.cells[a][k][h]), FromInt(Len(t.gm[k])))
-WMatrix(t, a) == [k \in 1..NG(t) |-> [h \in 1..NG(t) |-> Weight(t, a, k, h)]]
+WMatrix(t, a) == TLCEval([k \in 1..NG(t) |-> TLCEval([h \in 1..NG(t) |-> Weight(t, a, k, h)])])   \* TLCEval: build once, not per access
 CertTotal(c) == Add(SumF(c.u, Len(c.u)), SumF(c.v, Len(c.v)))
 BestAssignTotal(t, a) == IF NG(t) <= EnumLimit THEN BestTotal(WMatrix(t, a)) ELSE CertTotal(t.cert[a])
 ListTotalT(t, a) == IF t.ordered THEN SumF([k \in 1..NG(t) |-> Weight(t, a, k, k)], NG(t)) ELSE BestAssignTotal(t, a)
 BestListTotalT(t) == RMaxSet({ListTotalT(t, a) : a \in 1..NLists(t)})
-BestListsT(t) == {a \in 1..NLists(t) : ListTotalT(t, a) = BestListTotalT(t)}
+BestListsT(t) == LET best == BestListTotalT(t) IN {a \in 1..NLists(t) : ListTotalT(t, a) = best}
 Value(t) == IF IsLeaf(t) THEN MaxSeq(t.alts)                              \* the best alternative counts
             ELSE LET tot == BestListTotalT(t)
                      n == FromInt(NPos(t))
